@@ -654,11 +654,118 @@ def parser_table(repo):
     return {"Parser.lean": {"changed": changed, "calls": t}}
 
 
+def keyfile_shape(repo):
+    """The control skeleton of the five `KeyFile` methods the model of Cinco/Crypto/KeyFile.lean follows, reduced to what touches the
+    key, the reference count, the key file and the ways out (raise / early return). Statements that touch none of these — logging,
+    local names, docstrings, the provider call of encrypt / decrypt — leave the skeleton as it is."""
+    mod = _parse(repo, "encryption.py")
+    cls = _class(mod, "KeyFile")
+
+    def attr_is(node, frag):
+        return isinstance(node, ast.Attribute) and frag in node.attr
+
+    def test_tok(t):
+        if isinstance(t, ast.UnaryOp) and isinstance(t.op, ast.Not) and attr_is(t.operand, "key"):
+            return "not key"
+        if isinstance(t, ast.Compare) and len(t.ops) == 1 and attr_is(t.left, "refcount") and isinstance(t.comparators[0], ast.Constant):
+            op = {ast.Eq: "==", ast.LtE: "<=", ast.Lt: "<", ast.Gt: ">", ast.GtE: ">=", ast.NotEq: "!="}.get(type(t.ops[0]), "?")
+            return "refcount%s%s" % (op, t.comparators[0].value)
+        return "?" + ast.unparse(t)
+
+    def value_tok(v):
+        calls = [c for c in ast.walk(v) if isinstance(c, ast.Call)]
+        names = [_dotted(c.func) for c in calls]
+        if any(n.endswith(".read") for n in names):
+            return "read"
+        if any("generate_key" in n for n in names):
+            return "generate"
+        if any(n.endswith("urandom") for n in names):
+            return "urandom"
+        if isinstance(v, ast.Constant) and v.value is None:
+            return "None"
+        return "?" + ast.unparse(v)
+
+    def toks(stmts, last_top=None):
+        out = []
+        for st in stmts:
+            if isinstance(st, ast.Expr) and isinstance(st.value, ast.Constant):
+                continue
+            if isinstance(st, ast.If):
+                inner = toks(st.body) + (["else"] + toks(st.orelse) if toks(st.orelse) else [])
+                if inner or test_tok(st.test)[0] != "?":
+                    out += ["if[%s]" % test_tok(st.test)] + inner + ["end"]
+            elif isinstance(st, ast.Try):
+                out += ["try"] + toks(st.body)
+                for h in st.handlers:
+                    out += ["except:" + (_dotted(h.type) if h.type is not None else "*")] + toks(h.body)
+                if st.orelse:
+                    out += ["else"] + toks(st.orelse)
+                if st.finalbody:
+                    out += ["finally"] + toks(st.finalbody)
+                out += ["end"]
+            elif isinstance(st, ast.With):
+                ctx = st.items[0].context_expr
+                if isinstance(ctx, ast.Call) and _dotted(ctx.func) == "open":
+                    mode = ctx.args[1].value if len(ctx.args) > 1 and isinstance(ctx.args[1], ast.Constant) else "r"
+                    out += ["open:" + mode] + toks(st.body) + ["close"]
+                else:
+                    out += toks(st.body)
+            elif isinstance(st, ast.AugAssign) and attr_is(st.target, "refcount"):
+                out.append("refcount" + {ast.Add: "+=", ast.Sub: "-="}.get(type(st.op), "?=") + ast.unparse(st.value))
+            elif isinstance(st, (ast.Assign, ast.AnnAssign)):
+                tgts = st.targets if isinstance(st, ast.Assign) else [st.target]
+                if any(attr_is(t, "refcount") for t in tgts):
+                    out.append("refcount=" + ast.unparse(st.value))
+                elif any(attr_is(t, "key") for t in tgts) and st.value is not None:
+                    out.append("key=" + value_tok(st.value))
+                elif any(isinstance(t, ast.Name) and t.id == "key" for t in tgts) and st.value is not None:
+                    out.append("local key=" + value_tok(st.value))
+            elif isinstance(st, ast.Raise):
+                out.append("raise" + (":" + _dotted(st.exc.func if isinstance(st.exc, ast.Call) else st.exc) if st.exc is not None else ""))
+            elif isinstance(st, ast.Return):
+                if st is not last_top:
+                    out.append("return")
+                elif st.value is not None and any(isinstance(n, ast.Name) and n.id == "key" for n in ast.walk(st.value)):
+                    out.append("return key")
+            elif isinstance(st, ast.Expr) and isinstance(st.value, ast.Call):
+                n = _dotted(st.value.func)
+                if "load_key" in n:
+                    out.append("load")
+                elif "validate_key" in n:
+                    out.append("validate")
+                elif "generate_key" in n:
+                    out.append("generate")
+                elif n.endswith(".write"):
+                    out.append("write " + (ast.unparse(st.value.args[0]) if st.value.args else "?"))
+            elif isinstance(st, (ast.For, ast.While)):
+                inner = toks(st.body)
+                if inner:
+                    out += ["loop"] + inner + ["end"]
+        return out
+    shape = {}
+    for name in ("__enter__", "__exit__", "encrypt", "decrypt", "__load_key", "__generate_key", "_validate_key"):
+        fn = _method(cls, name)
+        body = [b for b in fn.body if not (isinstance(b, ast.Expr) and isinstance(b.value, ast.Constant))]
+        shape[name] = toks(body, body[-1] if body else None)
+    return shape
+
+
+def keyfile_table(repo):
+    t = keyfile_shape(repo)
+    lines = ["/- GENERATED by harness/extract.py from /repo on every run — do not edit. -/", "namespace Cinco.Generated", "",
+             "/-- control skeleton of the `KeyFile` methods (cincoconfig/encryption.py): what touches the key, the reference count, the key",
+             "    file and the ways out, in source order -/",
+             "def keyFileShape : List (String × List String) := [%s]" % ", ".join("(%s, [%s])" % (lstr(k), ", ".join(lstr(x) for x in v)) for k, v in t.items()),
+             "", "end Cinco.Generated"]
+    changed = _write("KeyFileShape.lean", "\n".join(lines) + "\n")
+    return {"KeyFileShape.lean": {"changed": changed, "shape": t}}
+
+
 def run(repo):
     """regenerate every table; a table whose source the translator cannot read any more is left as it was (the last reading) and
     reported under "unreadable": the obligations over it are then not established for the current source"""
     notes = {}
-    for step in (tables, overrides, effects, stub_effects, defaults_table, fast_paths_table, registration_table, parser_table):
+    for step in (tables, overrides, effects, stub_effects, defaults_table, fast_paths_table, registration_table, parser_table, keyfile_table):
         try:
             notes.update(step(repo))
         except Unknown as e:
